@@ -106,6 +106,10 @@ def main(args):
             seen.setdefault(c, w)
     run.add(core.Obligation("bounded.identifier-map-injective[snake_to_camel, names<=6 over ab_0]", core.BPASS if coll is None else core.BFAIL, "cpython", 0.0, kind="bounded",
                             model=coll, detail="%d SnakeWords" % n_names, replay=None if coll is None else {"reproduced": True, "inputs": coll}))
+    # -- E1: the switch optimisation of Ok() only emits case labels the discriminant's C++ type can represent
+    from vlib import pool
+    pool.run_targets(run, "contracts.gate", ["_get_switch_candidate"])
+    run.function("compiler.back_end.cpp.header_generator._get_switch_candidate", "pyvc: candidates are exactly `integer/enum field == constant` with the constant inside the discriminant's inferred bounds")
     # -- C: compile every corpus header with full instantiation --------------------------------
     from vlib.llvc import corpus
     cdir = os.path.join(core.VERIF, "corpus")
